@@ -40,7 +40,7 @@ RULE = (
     "operations, colour a function of the job, injective over the jobs shown "
     "and equal to the legend patch with that job's label, legend labels = jobs "
     "shown in order, x axis = (0, xlim or makespan) with the last tick there "
-    "(when positive). Kind 'anim': instance x history of n operations (n in "
+    "(when positive); optionally a second chart of another schedule of the same instance is drawn before the first is inspected. Kind 'anim': instance x history of n operations (n in "
     "1..30, or 100..130 - forced by a fixed case in every run), frames "
     "directory with digits in its path: (i) short histories: a wrapper around "
     "the library's plotter records at its k-th call the schedule it is given "
@@ -51,7 +51,7 @@ RULE = (
     "dispatcher); (ii) frame ORDER in the written file: a "
     "custom plot function draws k = number of scheduled operations as a "
     "binary block pattern, the GIF (and, thorough tier, the mp4) is read back "
-    "and decoded; the sequence must be 1..n. Non-trivial: chart with >=2 jobs "
+    "and decoded; the sequence must be 1..n - also when the caller's own existing frames directory is used for a second, shorter animation, and when frames are kept (remove_frames=False) and the directory is used again for an animation of the same length (the plot function must be called for every frame again). Non-trivial: chart with >=2 jobs "
     "and >=2 machines carrying bars; animation with n >= 100."
 )
 BUDGET = {"quick": 100, "thorough": 800}
@@ -76,6 +76,7 @@ def strategy(tier):
             "labels": st.booleans(),
             "via_creator": st.booleans(),
             "earlier": gen.pick([False, True, False]),
+            "second_chart": gen.pick([False, False, True]),
         }
     )
     short = st.fixed_dictionaries(
@@ -84,7 +85,7 @@ def strategy(tier):
             "inst": gen.instances(min_jobs=2, max_jobs=4, max_ops=4, max_machines=3, max_total=8),
             "history": gen.histories(max_len=10),
             "mode": gen.pick(
-                ["frames", "gif", "gif_kept_history", "creator", "creator_second_episode", "solver", "order", "order_creator_history"]
+                ["frames", "gif", "gif_kept_history", "creator", "creator_second_episode", "solver", "order", "order_creator_history", "order_frames_dir"]
             ),
             "rule": gen.pick(["most_work_remaining", "shortest_processing_time", "first_come_first_served", "most_operations_remaining"]),
         }
@@ -141,7 +142,7 @@ def fixed_cases(tier):
         "ints": True,
         "family": "fixed",
     }
-    for mode in ("frames", "gif", "gif_kept_history", "creator", "creator_second_episode", "solver"):
+    for mode in ("frames", "gif", "gif_kept_history", "creator", "creator_second_episode", "solver", "order_frames_dir"):
         cases.append(
             {"kind": "anim", "inst": small, "history": [[0, 0], [2, 0], [2, 0], [0, 0], [0, 0]], "mode": mode, "rule": "most_work_remaining"}
         )
@@ -300,9 +301,25 @@ def chart_case(case, ctx):
             fig, ax = plot_gantt_chart(
                 d.schedule, cmap_name=case["cmap"], xlim=xlim, job_labels=labels
             )
+            other = None
+            if case.get("second_chart"):
+                # a second chart of another schedule of the same instance is
+                # drawn (for a side-by-side comparison) before the first one
+                # is looked at
+                d_o, _h, model_o = dispatch_history(
+                    inst, instance, [[a + 1, b + 1] for a, b in case["history"]][::-1], (case["cut"] or 0) + 1
+                )
+                fig_o, ax_o = plot_gantt_chart(d_o.schedule, cmap_name=case["cmap"], job_labels=labels)
+                other = (ax_o, model_o)
+                ctx.label("two_charts_open")
             machines, jobs = check_chart_axes(
                 ctx, ax, model, n_jobs, f"plot_gantt_chart(xlim={xlim})", xlim=xlim, job_labels=labels
             )
+            if other is not None:
+                check_chart_axes(
+                    ctx, other[0], other[1], n_jobs, "plot_gantt_chart of a second schedule of the same instance",
+                    job_labels=labels,
+                )
     finally:
         plt.close("all")
     ctx.label(*gen.inst_labels(inst))
@@ -539,6 +556,15 @@ def anim_case(case, ctx):
                 reader = imageio.get_reader(path)
                 frames = [f for f in reader]
                 reader.close()
+            elif mode == "order_frames_dir":
+                # the caller's own, already existing frames directory
+                path = os.path.join(tmp, "fd_3.gif")
+                fdir = os.path.join(tmp, "my_frames_12")
+                os.mkdir(fdir)
+                create_gantt_chart_gif(
+                    instance, gif_path=path, plot_function=plotter, schedule_history=history, fps=10, frames_dir=fdir
+                )
+                frames = imageio.mimread(path, memtest=False)
             elif mode == "order_creator_history":
                 path = os.path.join(tmp, "c_11.gif")
                 creator = GanttChartCreator(d, gif_config={"gif_path": path, "fps": 5})
@@ -563,6 +589,40 @@ def anim_case(case, ctx):
                 f"frames of the written file decode to {decoded[:15]}...{decoded[-5:]} (len {len(decoded)}), expected 1..{n}",
             )
             ctx.count("frames_decoded", len(decoded))
+            if mode == "order_frames_dir":
+                # the same directory used for a second, shorter animation
+                n2 = max(1, n // 2)
+                os.makedirs(fdir, exist_ok=True)
+                del calls[:]
+                path2 = os.path.join(tmp, "fd_4.gif")
+                create_gantt_chart_gif(
+                    instance, gif_path=path2, plot_function=plotter, schedule_history=history[:n2], fps=10, frames_dir=fdir
+                )
+                again = [decode(f) for f in imageio.mimread(path2, memtest=False)]
+                ctx.check(calls == list(range(1, n2 + 1)), "plot-call-order", f"second animation in the same frames directory: plot function saw {calls[:12]}, expected 1..{n2}")
+                ctx.check(
+                    again == list(range(1, n2 + 1)),
+                    "frame-order-reused-frames-dir",
+                    f"a {n2}-operation animation made in the frames directory of an earlier {n}-operation one decodes to {again}",
+                )
+                # frames kept on request (remove_frames=False), then the same
+                # directory used for another animation of the same length
+                fdir2 = os.path.join(tmp, "kept_frames_7")
+                for tag in ("fd_5.gif", "fd_6.gif"):
+                    del calls[:]
+                    path3 = os.path.join(tmp, tag)
+                    create_gantt_chart_gif(
+                        instance, gif_path=path3, plot_function=plotter, schedule_history=history, fps=10,
+                        frames_dir=fdir2, remove_frames=False,
+                    )
+                    kept = [decode(f) for f in imageio.mimread(path3, memtest=False)]
+                    ctx.check(calls == list(range(1, n + 1)), "plot-call-order", f"{tag} with remove_frames=False: plot function saw {calls[:12]}, expected 1..{n}")
+                    ctx.check(kept == list(range(1, n + 1)), "frame-order-kept-frames", f"{tag} with remove_frames=False decodes to {kept}")
+                    ctx.check(
+                        os.path.isdir(fdir2) and len(os.listdir(fdir2)) == n,
+                        "frames-kept",
+                        f"remove_frames=False: frames directory holds {len(os.listdir(fdir2)) if os.path.isdir(fdir2) else 'nothing'} files for {n} operations",
+                    )
             if mode == "order" and n >= 100:
                 # a second, short animation written to the same path
                 del calls[:]
